@@ -1,3 +1,1053 @@
-(* HeapProofs — see docs/ for the plan of this file. *)
+(* HeapProofs — proofs about the object-level model Heap.v / Heap2.v (C03).
+
+   Part 1  ownership: every operation preserves [good mark] (well-formed heap, every
+           writable node and its children array allocated at or after [mark]) and is an
+           [ext mark] step: nothing below [mark] changes, every logged in-place write
+           targets an address >= mark.
+   Part 2  histories: the mark is the allocation pointer at the last snapshot point;
+           every handed-out roots array lies below it; abs of it never changes. *)
+From Coq Require Import FMapPositive.
 From FoxBase Require Import Bytes.
-From FoxRoute Require Import Node Lookup Spec Tree.
+From FoxRoute Require Import Node Tree Heap Heap2.
+
+Local Open Scope positive_scope.
+
+(* ---------- monad plumbing ---------- *)
+Lemma bind_ok {A B} (m : M A) (k : A -> M B) s b s'' :
+  bind m k s = Ok (b, s'') -> exists a s', m s = Ok (a, s') /\ k a s' = Ok (b, s'').
+Proof. unfold bind. destruct (m s) as [[a s']| |]; try discriminate. eauto. Qed.
+
+Lemma ret_ok {A} (a b : A) s s' : ret a s = Ok (b, s') -> b = a /\ s' = s.
+Proof. unfold ret. intros H; inversion H; auto. Qed.
+
+Lemma opt_get_ok {A} (o : option A) a s s' : opt_get o s = Ok (a, s') -> o = Some a /\ s' = s.
+Proof. destruct o; simpl; unfold ret, panic; intros H; inversion H; auto. Qed.
+
+(* ---------- invariants ---------- *)
+Definition V (s : st) (a : addr) : Prop := a < s_next s.
+
+Record wf (s : st) : Prop := {
+  wf_node : forall a o, find_node s a = Some o -> V s a /\ V s (n_arr o);
+  wf_arr : forall a l, find_arr s a = Some l -> V s a /\ Forall (V s) l;
+  wf_root : V s (s_root s) }.
+
+(* a node the transaction may edit in place: it and its children array were allocated at or after mark *)
+Definition own (mark : addr) (s : st) (a : addr) : Prop :=
+  mark <= a /\ exists o, find_node s a = Some o /\ mark <= n_arr o.
+
+Record good (mark : addr) (s : st) : Prop := {
+  g_wf : wf s;
+  g_mark : mark <= s_next s;
+  g_wr : Forall (own mark s) (s_wr s) }.
+
+Record ext (mark : addr) (s s' : st) : Prop := {
+  e_next : s_next s <= s_next s';
+  e_node : forall a, a < mark -> find_node s' a = find_node s a;
+  e_arr : forall a, a < mark -> find_arr s' a = find_arr s a;
+  e_pers : forall a o, find_node s a = Some o -> exists o', find_node s' a = Some o' /\ n_arr o' = n_arr o;
+  e_log : exists l, s_log s' = (l ++ s_log s)%list /\ Forall (fun t => mark <= t) l }.
+
+Lemma ext_refl mark s : ext mark s s.
+Proof. constructor; auto; try lia. - eauto. - exists []; auto. Qed.
+
+Lemma ext_trans mark s1 s2 s3 : ext mark s1 s2 -> ext mark s2 s3 -> ext mark s1 s3.
+Proof.
+  intros [n1 a1 b1 p1 (l1 & L1 & F1)] [n2 a2 b2 p2 (l2 & L2 & F2)]. constructor.
+  - lia.
+  - intros a H. rewrite a2, a1; auto.
+  - intros a H. rewrite b2, b1; auto.
+  - intros a o H. destruct (p1 _ _ H) as (o' & H' & E'). destruct (p2 _ _ H') as (o'' & H'' & E''). exists o''. split; congruence.
+  - exists (l2 ++ l1)%list. split. + rewrite L2, L1, app_assoc. reflexivity. + apply Forall_app; auto.
+Qed.
+
+Lemma ext_weaken m m' s s' : m <= m' -> ext m' s s' -> ext m s s'.
+Proof.
+  intros L [n a b p (l & Ll & F)]. constructor; auto.
+  - intros x H. apply a. lia.
+  - intros x H. apply b. lia.
+  - exists l. split; auto. eapply Forall_impl; [|exact F]. simpl. intros; lia.
+Qed.
+
+Lemma V_ext mark s s' a : ext mark s s' -> V s a -> V s' a.
+Proof. intros E H. unfold V in *. pose proof (e_next _ _ _ E). lia. Qed.
+
+Lemma FV_ext mark s s' l : ext mark s s' -> Forall (V s) l -> Forall (V s') l.
+Proof. intros E H. eapply Forall_impl; [|exact H]. intros a. apply (V_ext mark); auto. Qed.
+
+Lemma own_ext mark s s' a : ext mark s s' -> own mark s a -> own mark s' a.
+Proof.
+  intros E [L (o & H & La)]. split; auto. destruct (e_pers _ _ _ E _ _ H) as (o' & H' & Ea).
+  exists o'. split; auto. congruence.
+Qed.
+
+Definition optO (mark : addr) (s : st) (o : option addr) : Prop :=
+  match o with Some a => own mark s a | None => True end.
+Lemma optO_ext mark s s' o : ext mark s s' -> optO mark s o -> optO mark s' o.
+Proof. destruct o; simpl; auto. apply own_ext. Qed.
+
+Lemma own_V mark s a : wf s -> own mark s a -> V s a.
+Proof. intros W [_ (o & H & _)]. apply (wf_node _ W _ _ H). Qed.
+
+(* ---------- finite-map facts ---------- *)
+Lemma pm_gss {A} a (v : A) m : PM.find a (PM.add a v m) = Some v.
+Proof. apply PM.gss. Qed.
+Lemma pm_gso {A} a b (v : A) m : a <> b -> PM.find a (PM.add b v m) = PM.find a m.
+Proof. intros. apply PM.gso. auto. Qed.
+
+(* heap-only view of the setters *)
+Lemma find_node_set_heap s n a nx x : find_node (set_heap s n a nx) x = PM.find x n. Proof. reflexivity. Qed.
+Lemma find_arr_set_heap s n a nx x : find_arr (set_heap s n a nx) x = PM.find x a. Proof. reflexivity. Qed.
+
+Lemma wf_same_heap s s' :
+  s_nodes s' = s_nodes s -> s_arrs s' = s_arrs s -> s_next s' = s_next s -> s_root s' = s_root s -> wf s -> wf s'.
+Proof.
+  intros Hn Ha Hx Hr [wn wa wr]. unfold V, find_node, find_arr in *.
+  constructor; unfold V, find_node, find_arr; rewrite ?Hn, ?Ha, ?Hx, ?Hr; auto.
+Qed.
+
+Lemma ext_same_heap mark s s' :
+  s_nodes s' = s_nodes s -> s_arrs s' = s_arrs s -> s_next s' = s_next s -> s_log s' = s_log s -> ext mark s s'.
+Proof.
+  intros Hn Ha Hx Hl. constructor; unfold find_node, find_arr; rewrite ?Hn, ?Ha, ?Hx; auto; try lia.
+  - eauto.
+  - exists []. rewrite Hl. auto.
+Qed.
+
+Lemma own_same_heap mark s s' a : s_nodes s' = s_nodes s -> own mark s a -> own mark s' a.
+Proof. intros Hn [L (o & H & La)]. split; auto. exists o. unfold find_node in *. rewrite Hn. auto. Qed.
+
+(* a change of tXn fields other than the heap, the root and the writable set *)
+Lemma good_meta mark s sz mp d : good mark s -> good mark (set_meta s sz mp d) /\ ext mark s (set_meta s sz mp d).
+Proof.
+  intros [W M Wr]. split.
+  - constructor; simpl; auto.
+    apply (wf_same_heap s); auto.
+  - apply ext_same_heap; auto.
+Qed.
+
+Section Inv.
+Variable evict : N -> list addr -> list addr.
+Hypothesis evict_sub : forall c w a, In a (evict c w) -> In a w.
+Variable mark : addr.
+
+Notation good := (good mark). Notation ext := (ext mark). Notation own := (own mark).
+
+(* ---------- primitives ---------- *)
+Lemma get_node_ok a s o s' : get_node a s = Ok (o, s') -> s' = s /\ find_node s a = Some o.
+Proof. unfold get_node, find_node. destruct (PM.find a (s_nodes s)); intros H; inversion H; auto. Qed.
+
+Lemma get_arr_ok a s l s' : get_arr a s = Ok (l, s') -> s' = s /\ find_arr s a = Some l.
+Proof. unfold get_arr, find_arr. destruct (PM.find a (s_arrs s)); intros H; inversion H; auto. Qed.
+
+Lemma get_root_ok s r s' : get_root s = Ok (r, s') -> s' = s /\ r = s_root s.
+Proof. unfold get_root. intros H; inversion H; auto. Qed.
+Lemma get_cache_ok s r s' : get_cache s = Ok (r, s') -> s' = s /\ r = s_cache s.
+Proof. unfold get_cache. intros H; inversion H; auto. Qed.
+
+Lemma alloc_node_ok o s a s' :
+  good s -> V s (n_arr o) -> alloc_node o s = Ok (a, s') ->
+  good s' /\ ext s s' /\ V s' a /\ mark <= a /\ find_node s' a = Some o.
+Proof.
+  intros [W M Wr] Va H. unfold alloc_node in H. inversion H; subst; clear H.
+  assert (Hfresh : forall x o', find_node s x = Some o' -> x <> s_next s).
+  { intros x o' Hx. pose proof (proj1 (wf_node _ W _ _ Hx)). unfold V in *. lia. }
+  assert (E : ext s (set_heap s (PM.add (s_next s) o (s_nodes s)) (s_arrs s) (Pos.succ (s_next s)))).
+  { constructor; simpl; try lia.
+    - intros x Hx. rewrite find_node_set_heap. apply pm_gso. lia.
+    - auto.
+    - intros x o' Hx. exists o'. split; auto. rewrite find_node_set_heap, pm_gso; eauto.
+    - exists []; auto. }
+  split; [|split; [exact E|]].
+  - constructor; simpl; try lia.
+    + constructor; unfold V; simpl.
+      * intros x o'. rewrite find_node_set_heap. destruct (Pos.eq_dec x (s_next s)) as [->|Hn].
+        -- rewrite pm_gss. intros Ho; inversion Ho; subst. unfold V in Va. lia.
+        -- rewrite pm_gso by auto. intros Hx. destruct (wf_node _ W _ _ Hx). unfold V in *. lia.
+      * intros x l Hx. destruct (wf_arr _ W _ _ Hx) as [Vx Fl]. unfold V in *. split; [lia|].
+        eapply Forall_impl; [|exact Fl]. simpl. intros; lia.
+      * pose proof (wf_root _ W). unfold V in *. lia.
+    + eapply Forall_impl; [|exact Wr]. intros x. apply own_ext. exact E.
+  - unfold V; simpl. split; [lia|]. split; [lia|]. rewrite find_node_set_heap. apply pm_gss.
+Qed.
+
+Lemma alloc_arr_ok l s a s' :
+  good s -> Forall (V s) l -> alloc_arr l s = Ok (a, s') ->
+  good s' /\ ext s s' /\ V s' a /\ mark <= a /\ find_arr s' a = Some l.
+Proof.
+  intros [W M Wr] Vl H. unfold alloc_arr in H. inversion H; subst; clear H.
+  assert (E : ext s (set_heap s (s_nodes s) (PM.add (s_next s) l (s_arrs s)) (Pos.succ (s_next s)))).
+  { constructor; simpl; try lia.
+    - auto.
+    - intros x Hx. rewrite find_arr_set_heap. apply pm_gso. lia.
+    - intros x o' Hx. exists o'. auto.
+    - exists []; auto. }
+  split; [|split; [exact E|]].
+  - constructor; simpl; try lia.
+    + constructor; unfold V; simpl.
+      * intros x o' Hx. destruct (wf_node _ W _ _ Hx). unfold V in *. lia.
+      * intros x l'. rewrite find_arr_set_heap. destruct (Pos.eq_dec x (s_next s)) as [->|Hn].
+        -- rewrite pm_gss. intros Ho; inversion Ho; subst. split; [lia|].
+           eapply Forall_impl; [|exact Vl]. unfold V. simpl. intros; lia.
+        -- rewrite pm_gso by auto. intros Hx. destruct (wf_arr _ W _ _ Hx) as [Vx Fl]. unfold V in *. split; [lia|].
+           eapply Forall_impl; [|exact Fl]. simpl. intros; lia.
+      * pose proof (wf_root _ W). unfold V in *. lia.
+    + eapply Forall_impl; [|exact Wr]. intros x. apply own_ext. exact E.
+  - unfold V; simpl. split; [lia|]. split; [lia|]. rewrite find_arr_set_heap. apply pm_gss.
+Qed.
+
+Lemma Forall_set_nth {A} (P : A -> Prop) l i v : Forall P l -> P v -> Forall P (set_nth l i v).
+Proof.
+  intros H Hv. revert i. induction H; intros [|i]; simpl; auto.
+Qed.
+Lemma Forall_del_nth {A} (P : A -> Prop) l i : Forall P l -> Forall P (del_nth l i).
+Proof. intros H. revert i. induction H; intros [|i]; simpl; auto. Qed.
+
+(* an in-place write of array a *)
+Lemma write_arr_gen a l' s :
+  good s -> mark <= a -> (exists l, find_arr s a = Some l) -> Forall (V s) l' ->
+  let s' := set_heap_w s (s_nodes s) (PM.add a l' (s_arrs s)) a in
+  good s' /\ ext s s'.
+Proof.
+  intros [W M Wr] La (l & Hl) Vl s'.
+  assert (E : ext s s').
+  { constructor; simpl; try lia.
+    - auto.
+    - intros x Hx. unfold s', find_arr. simpl. apply pm_gso. lia.
+    - intros x o' Hx. exists o'. auto.
+    - exists [a]. split; auto. }
+  split; [|exact E].
+  constructor; simpl; try lia.
+  - constructor; unfold V; simpl.
+    + intros x o' Hx. apply (wf_node _ W _ _ Hx).
+    + intros x l0. unfold s', find_arr. simpl. destruct (Pos.eq_dec x a) as [->|Hn].
+      * rewrite pm_gss. intros Ho; inversion Ho; subst. split; auto. apply (wf_arr _ W _ _ Hl).
+      * rewrite pm_gso by auto. intros Hx. apply (wf_arr _ W _ _ Hx).
+    + apply (wf_root _ W).
+  - eapply Forall_impl; [|exact Wr]. intros x. apply own_ext. exact E.
+Qed.
+
+Lemma write_slot_ok a i v s u s' :
+  good s -> mark <= a -> V s v -> write_slot a i v s = Ok (u, s') -> good s' /\ ext s s'.
+Proof.
+  intros G La Vv H. unfold write_slot in H.
+  destruct (PM.find a (s_arrs s)) as [l|] eqn:Hl; try discriminate.
+  destruct (Nat.ltb i (List.length l)); try discriminate. inversion H; subst; clear H.
+  apply write_arr_gen; eauto.
+  apply Forall_set_nth; auto. apply (wf_arr _ (g_wf _ _ G) _ _ Hl).
+Qed.
+
+Lemma write_arr_ok a l' s u s' :
+  good s -> mark <= a -> Forall (V s) l' -> write_arr a l' s = Ok (u, s') -> good s' /\ ext s s'.
+Proof.
+  intros G La Vv H. unfold write_arr in H.
+  destruct (PM.find a (s_arrs s)) as [l|] eqn:Hl; try discriminate. inversion H; subst; clear H.
+  apply write_arr_gen; eauto.
+Qed.
+
+Lemma set_key_ok a k s u s' :
+  good s -> mark <= a -> set_key a k s = Ok (u, s') -> good s' /\ ext s s'.
+Proof.
+  intros [W M Wr] La H. unfold set_key in H.
+  destruct (PM.find a (s_nodes s)) as [o|] eqn:Ho; try discriminate. inversion H; subst; clear H.
+  match goal with |- good ?x /\ _ => set (s' := x) end.
+  assert (E : ext s s').
+  { constructor; simpl; try lia.
+    - intros x Hx. unfold s', find_node. simpl. apply pm_gso. lia.
+    - auto.
+    - intros x o' Hx. unfold s', find_node. simpl. destruct (Pos.eq_dec x a) as [->|Hn].
+      + rewrite pm_gss. eexists; split; eauto. simpl. unfold find_node in Hx. congruence.
+      + rewrite pm_gso by auto. eauto.
+    - exists [a]. split; auto. }
+  split; [|exact E].
+  constructor; simpl; try lia.
+  - constructor; unfold V; simpl.
+    + intros x o'. unfold s', find_node. simpl. destruct (Pos.eq_dec x a) as [->|Hn].
+      * rewrite pm_gss. intros Hx; inversion Hx; subst; simpl. apply (wf_node _ W _ _ Ho).
+      * rewrite pm_gso by auto. intros Hx. apply (wf_node _ W _ _ Hx).
+    + intros x l0 Hx. apply (wf_arr _ W _ _ Hx).
+    + apply (wf_root _ W).
+  - eapply Forall_impl; [|exact Wr]. intros x. apply own_ext. exact E.
+Qed.
+
+Lemma set_root_ok r s u s' : good s -> V s r -> set_root r s = Ok (u, s') -> good s' /\ ext s s'.
+Proof.
+  intros [W M Wr] Vr H. unfold set_root in H. inversion H; subst; clear H. split.
+  - constructor; simpl; auto.
+    destruct W as [wn wa wr]. constructor; auto.
+  - apply ext_same_heap; auto.
+Qed.
+
+Lemma bump_size_ok d s u s' : good s -> bump_size d s = Ok (u, s') -> good s' /\ ext s s'.
+Proof. intros G H. unfold bump_size in H. inversion H; subst. apply good_meta; auto. Qed.
+Lemma put_size_ok d s u s' : good s -> put_size d s = Ok (u, s') -> good s' /\ ext s s'.
+Proof. intros G H. unfold put_size in H. inversion H; subst. apply good_meta; auto. Qed.
+Lemma upd_maxp_ok d s u s' : good s -> upd_maxp d s = Ok (u, s') -> good s' /\ ext s s'.
+Proof. intros G H. unfold upd_maxp in H. inversion H; subst. apply good_meta; auto. Qed.
+Lemma upd_depth_ok d s u s' : good s -> upd_depth d s = Ok (u, s') -> good s' /\ ext s s'.
+Proof. intros G H. unfold upd_depth in H. inversion H; subst. apply good_meta; auto. Qed.
+
+(* ---------- the writable set ---------- *)
+Lemma take_out_in a l l' : take_out a l = Some l' -> In a l /\ (forall x, In x l' -> In x l).
+Proof.
+  revert l'. induction l as [|x r IH]; simpl; intros l' H; try discriminate.
+  destruct (Pos.eqb_spec x a) as [->|Hn].
+  - inversion H; subst. auto.
+  - destruct (take_out a r) as [r'|]; try discriminate. inversion H; subst.
+    destruct (IH _ eq_refl) as [I1 I2]. split; auto. simpl. intros y [->|Hy]; auto.
+Qed.
+
+Lemma good_set_wr s w c : good s -> Forall (own s) w -> good (set_wr s w c) /\ ext s (set_wr s w c).
+Proof.
+  intros [W M Wr] Fw. split.
+  - constructor; simpl; auto.
+    apply (wf_same_heap s); auto.
+  - apply ext_same_heap; auto.
+Qed.
+
+Lemma Forall_sub {A} (P : A -> Prop) l l' : (forall x, In x l' -> In x l) -> Forall P l -> Forall P l'.
+Proof. intros S F. rewrite Forall_forall in *. auto. Qed.
+
+Lemma w_get_ok a s b s' :
+  good s -> w_get evict a s = Ok (b, s') -> good s' /\ ext s s' /\ (b = true -> own s' a).
+Proof.
+  intros G H. unfold w_get in H. pose proof (g_wr _ _ G) as Wr.
+  destruct (take_out a (s_wr s)) as [w'|] eqn:T; inversion H; subst; clear H.
+  - destruct (take_out_in _ _ _ T) as [I1 I2].
+    assert (Oa : own s a) by (rewrite Forall_forall in Wr; auto).
+    assert (Fw : Forall (own s) (evict (s_clock s) (a :: w'))).
+    { eapply Forall_sub; [apply evict_sub|]. constructor; auto. eapply Forall_sub; eauto. }
+    destruct (good_set_wr s _ (N.succ (s_clock s)) G Fw) as [G' E'].
+    split; [exact G'|]. split; [exact E'|]. intros _. eapply own_ext; eauto.
+  - assert (Fw : Forall (own s) (evict (s_clock s) (s_wr s))).
+    { eapply Forall_sub; [apply evict_sub|]. auto. }
+    destruct (good_set_wr s _ (N.succ (s_clock s)) G Fw) as [G' E'].
+    split; [exact G'|]. split; [exact E'|]. discriminate.
+Qed.
+
+Lemma w_add_ok a s u s' : good s -> own s a -> w_add evict a s = Ok (u, s') -> good s' /\ ext s s'.
+Proof.
+  intros G Oa H. unfold w_add in H. inversion H; subst; clear H. pose proof (g_wr _ _ G) as Wr.
+  apply good_set_wr; auto. eapply Forall_sub; [apply evict_sub|]. constructor; auto.
+  destruct (take_out a (s_wr s)) as [w'|] eqn:T; auto.
+  destruct (take_out_in _ _ _ T) as [I1 I2]. eapply Forall_sub; eauto.
+Qed.
+
+Lemma w_reset_ok s u s' : good s -> w_reset s = Ok (u, s') -> good s' /\ ext s s'.
+Proof. intros G H. unfold w_reset in H. inversion H; subst. apply good_set_wr; auto. Qed.
+
+Lemma w_add_if_cache_ok a s u s' : good s -> own s a -> w_add_if_cache evict a s = Ok (u, s') -> good s' /\ ext s s'.
+Proof.
+  intros G Oa H. unfold w_add_if_cache in H. apply bind_ok in H. destruct H as (c & s1 & H1 & H2).
+  apply get_cache_ok in H1. destruct H1 as [-> _]. destruct c.
+  - eapply w_add_ok; eauto.
+  - apply ret_ok in H2. destruct H2 as [_ ->]. split; auto. apply ext_refl.
+Qed.
+
+(* ---------- proof helpers: transport the stable facts along an ext step ---------- *)
+Ltac adv E :=
+  match type of E with HeapProofs.ext _ ?s ?s' =>
+    repeat match goal with
+    | X : V s _ |- _ => apply (V_ext mark _ _ _ E) in X
+    | X : Forall (V s) _ |- _ => apply (FV_ext mark _ _ _ E) in X
+    | X : HeapProofs.own _ s _ |- _ => apply (own_ext mark _ _ _ E) in X
+    | X : optO _ s _ |- _ => apply (optO_ext mark _ _ _ E) in X
+    end
+  end.
+Ltac chain E0 E :=
+  let T := fresh "E" in pose proof (ext_trans mark _ _ _ E0 E) as T; adv E; clear E0 E; rename T into E0.
+Ltac fin := repeat match goal with |- _ /\ _ => split end; simpl; auto using ext_refl.
+Ltac mbind H a s1 H1 := apply bind_ok in H; destruct H as (a & s1 & H1 & H).
+
+(* ---------- node helpers ---------- *)
+Lemma key_of_ok a s k s' : key_of a s = Ok (k, s') -> s' = s.
+Proof.
+  unfold key_of. intros H. mbind H o s1 H1. apply get_node_ok in H1. destruct H1 as [-> _].
+  apply ret_ok in H. tauto.
+Qed.
+
+Lemma keys_of_ok l s ks s' : keys_of l s = Ok (ks, s') -> s' = s.
+Proof.
+  revert s ks s'. induction l as [|a r IH]; simpl; intros s ks s' H.
+  - apply ret_ok in H. tauto.
+  - mbind H k s1 H1. apply key_of_ok in H1. subst s1. mbind H ks' s2 H2. apply IH in H2. subst s2.
+    apply ret_ok in H. tauto.
+Qed.
+
+Lemma nth_error_Forall {A} (P : A -> Prop) l i x : Forall P l -> nth_error l i = Some x -> P x.
+Proof. intros F H. apply nth_error_In in H. rewrite Forall_forall in F. auto. Qed.
+
+Lemma get_edge_ok n c s r s' :
+  good s -> get_edge n c s = Ok (r, s') -> s' = s /\ (forall nx, r = Some nx -> V s nx).
+Proof.
+  intros G H. unfold get_edge in H.
+  mbind H o s1 H1. apply get_node_ok in H1. destruct H1 as [-> Ho].
+  mbind H ch s1 H1. apply get_arr_ok in H1. destruct H1 as [-> Hch].
+  mbind H ks s1 H1. apply keys_of_ok in H1. subst s1.
+  pose proof (proj2 (wf_arr _ (g_wf _ _ G) _ _ Hch)) as Fch.
+  destruct (find_idx_from 0 c ks); apply ret_ok in H; destruct H as [-> ->]; split; auto.
+  - intros nx Hn. eapply nth_error_Forall; eauto.
+  - discriminate.
+Qed.
+
+Lemma update_edge_ok n nd s u s' :
+  good s -> own s n -> V s nd -> update_edge n nd s = Ok (u, s') -> good s' /\ ext s s'.
+Proof.
+  intros G On Vn H. unfold update_edge in H.
+  mbind H k s1 H1. apply key_of_ok in H1. subst s1.
+  destruct k as [|c k]; [discriminate|].
+  mbind H o s1 H1. apply get_node_ok in H1. destruct H1 as [-> Ho].
+  mbind H ch s1 H1. apply get_arr_ok in H1. destruct H1 as [-> Hch].
+  mbind H ks s1 H1. apply keys_of_ok in H1. subst s1.
+  destruct (find_idx_from 0 c ks); [|discriminate].
+  destruct On as [_ (o' & Ho' & La)]. assert (o' = o) by congruence. subst o'.
+  eapply write_slot_ok; eauto.
+Qed.
+
+Lemma clone_ok n s a s' :
+  good s -> clone n s = Ok (a, s') -> good s' /\ ext s s' /\ own s' a /\ V s' a.
+Proof.
+  intros G H. unfold clone in H.
+  mbind H o s1 H1. apply get_node_ok in H1. destruct H1 as [-> Ho].
+  mbind H ch s1 H1. apply get_arr_ok in H1. destruct H1 as [-> Hch].
+  pose proof (proj2 (wf_arr _ (g_wf _ _ G) _ _ Hch)) as Fch.
+  mbind H a1 s1 H1. destruct (alloc_arr_ok _ _ _ _ G Fch H1) as (G1 & E1 & V1 & L1 & _).
+  pose proof (fun pf => alloc_node_ok _ _ _ _ G1 pf H) as X. simpl in X.
+  destruct (X V1) as (G2 & E2 & V2 & L2 & F2).
+  split; auto. split; [eapply ext_trans; eauto|]. split; auto.
+  split; auto. eexists; split; eauto.
+Qed.
+
+Lemma new_node_from_ref_ok k r arr s a s' :
+  good s -> V s arr -> new_node_from_ref k r arr s = Ok (a, s') ->
+  good s' /\ ext s s' /\ V s' a /\ mark <= a /\ (mark <= arr -> own s' a).
+Proof.
+  intros G Va H. unfold new_node_from_ref in H.
+  pose proof (fun pf => alloc_node_ok _ _ _ _ G pf H) as X. simpl in X.
+  destruct (X Va) as (G2 & E2 & V2 & L2 & F2).
+  split; auto. split; auto. split; auto. split; auto. intros La. split; auto. eexists; split; eauto.
+Qed.
+
+Lemma ins_sorted_in x l y : In y (ins_sorted x l) -> y = x \/ In y l.
+Proof.
+  induction l as [|m r IH]; simpl.
+  - intros [<-|[]]; auto.
+  - destruct (key_ltb (fst m) (fst x)); simpl.
+    + intros [<-|H]; auto. destruct (IH H); auto.
+    + intros [<-|H]; auto.
+Qed.
+Lemma sort_pairs_in l y : In y (sort_pairs l) -> In y l.
+Proof.
+  unfold sort_pairs. induction l as [|x r IH]; simpl; auto.
+  intros H. apply ins_sorted_in in H. destruct H; auto.
+Qed.
+Lemma sorted_sub (ks : list bytes) (ch : list addr) x : In x (map snd (sort_pairs (combine ks ch))) -> In x ch.
+Proof.
+  intros H. apply in_map_iff in H. destruct H as ([k y] & <- & H). apply sort_pairs_in in H.
+  apply in_combine_r in H. auto.
+Qed.
+
+Lemma new_node_ok k r arr s a s' :
+  good s -> mark <= arr -> new_node k r arr s = Ok (a, s') -> good s' /\ ext s s' /\ V s' a /\ own s' a.
+Proof.
+  intros G La H. unfold new_node in H.
+  mbind H ch s1 H1. apply get_arr_ok in H1. destruct H1 as [-> Hch].
+  destruct (wf_arr _ (g_wf _ _ G) _ _ Hch) as [Varr Fch].
+  mbind H ks s1 H1. apply keys_of_ok in H1. subst s1.
+  mbind H u s1 H1.
+  assert (Fs : Forall (V s) (map snd (sort_pairs (combine ks ch)))).
+  { rewrite Forall_forall in *. intros x Hx. apply Fch. eapply sorted_sub; eauto. }
+  destruct (write_arr_ok _ _ _ _ _ G La Fs H1) as (G1 & E1). adv E1.
+  destruct (new_node_from_ref_ok _ _ _ _ _ _ G1 Varr H) as (G2 & E2 & V2 & L2 & O2).
+  split; auto. split; [eapply ext_trans; eauto|]. split; auto.
+Qed.
+
+(* ---------- roots ---------- *)
+Lemma method_index_at_ok ra m s r s' : method_index_at ra m s = Ok (r, s') -> s' = s.
+Proof.
+  unfold method_index_at. intros H.
+  repeat match type of H with (if ?b then _ else _) _ = _ => destruct b; [apply ret_ok in H; tauto|] end.
+  mbind H rs s1 H1. apply get_arr_ok in H1. destruct H1 as [-> _].
+  mbind H ks s1 H1. apply keys_of_ok in H1. subst s1. apply ret_ok in H. tauto.
+Qed.
+Lemma h_method_index_ok m s r s' : h_method_index m s = Ok (r, s') -> s' = s.
+Proof.
+  unfold h_method_index. intros H. mbind H ra s1 H1. apply get_root_ok in H1. destruct H1 as [-> _].
+  eapply method_index_at_ok; eauto.
+Qed.
+Lemma get_roots_ok s rs s' : good s -> get_roots s = Ok (rs, s') -> s' = s /\ Forall (V s) rs.
+Proof.
+  intros G H. unfold get_roots in H. mbind H ra s1 H1. apply get_root_ok in H1. destruct H1 as [-> ->].
+  apply get_arr_ok in H. destruct H as [-> Hr]. split; auto. apply (wf_arr _ (g_wf _ _ G) _ _ Hr).
+Qed.
+
+Lemma add_root_ok n s u s' : good s -> V s n -> add_root n s = Ok (u, s') -> good s' /\ ext s s'.
+Proof.
+  intros G Vn H. unfold add_root in H.
+  mbind H rs s1 H1. destruct (get_roots_ok _ _ _ G H1) as [-> Frs]; clear H1.
+  mbind H a s1 H1.
+  assert (F : Forall (V s) (rs ++ [n])) by (apply Forall_app; auto).
+  destruct (alloc_arr_ok _ _ _ _ G F H1) as (G1 & E1 & V1 & L1 & _).
+  destruct (set_root_ok _ _ _ _ G1 V1 H) as (G2 & E2).
+  split; auto. eapply ext_trans; eauto.
+Qed.
+
+Lemma update_root_ok n s b s' : good s -> V s n -> update_root n s = Ok (b, s') -> good s' /\ ext s s'.
+Proof.
+  intros G Vn H. unfold update_root in H.
+  mbind H k s1 H1. apply key_of_ok in H1. subst s1.
+  mbind H idx s1 H1. apply h_method_index_ok in H1. subst s1.
+  destruct idx as [i|].
+  - mbind H rs s1 H1. destruct (get_roots_ok _ _ _ G H1) as [-> Frs]; clear H1.
+    destruct (Nat.ltb i (List.length rs)); [|discriminate].
+    mbind H a s1 H1.
+    assert (F : Forall (V s) (set_nth rs i n)) by (apply Forall_set_nth; auto).
+    destruct (alloc_arr_ok _ _ _ _ G F H1) as (G1 & E1 & V1 & L1 & _).
+    mbind H u s2 H2. destruct (set_root_ok _ _ _ _ G1 V1 H2) as (G2 & E2).
+    apply ret_ok in H. destruct H as [_ ->]. split; auto. eapply ext_trans; eauto.
+  - apply ret_ok in H. destruct H as [_ ->]. split; auto. apply ext_refl.
+Qed.
+
+Lemma remove_root_ok m s b s' : good s -> remove_root m s = Ok (b, s') -> good s' /\ ext s s'.
+Proof.
+  intros G H. unfold remove_root in H.
+  mbind H idx s1 H1. apply h_method_index_ok in H1. subst s1.
+  destruct idx as [i|].
+  - mbind H rs s1 H1. destruct (get_roots_ok _ _ _ G H1) as [-> Frs]; clear H1.
+    destruct (Nat.ltb i (List.length rs)); [|discriminate].
+    mbind H a s1 H1.
+    assert (F : Forall (V s) (del_nth rs i)) by (apply Forall_del_nth; auto).
+    destruct (alloc_arr_ok _ _ _ _ G F H1) as (G1 & E1 & V1 & L1 & _).
+    mbind H u s2 H2. destruct (set_root_ok _ _ _ _ G1 V1 H2) as (G2 & E2).
+    apply ret_ok in H. destruct H as [_ ->]. split; auto. eapply ext_trans; eauto.
+  - apply ret_ok in H. destruct H as [_ ->]. split; auto. apply ext_refl.
+Qed.
+
+(* ---------- copyOnWriteSearch ---------- *)
+Lemma cow_loop_ok fuel : forall cur p pp ppp rest from cm cmin depth s r s',
+  good s -> V s cur -> optO mark s p -> optO mark s pp -> optO mark s ppp ->
+  cow_loop evict fuel cur p pp ppp rest from cm cmin depth s = Ok (r, s') ->
+  good s' /\ ext s s' /\ V s' (r_matched r) /\ optO mark s' (r_p r) /\ optO mark s' (r_pp r) /\ optO mark s' (r_ppp r).
+Proof.
+  induction fuel as [|f IH]; intros cur p pp ppp rest from cm cmin depth s r s' G Vc Op Opp Oppp H; simpl in H.
+  - discriminate.
+  - destruct rest as [|c rest0].
+    + apply ret_ok in H. destruct H as [-> ->]. simpl. split; auto. split; [apply ext_refl|]. auto.
+    + mbind H next s1 H1. destruct (get_edge_ok _ _ _ _ _ G H1) as [-> Vnx]. clear H1.
+      destruct next as [nx|].
+      * specialize (Vnx _ eq_refl).
+        mbind H hit s1 H1. destruct (w_get_ok _ _ _ _ G H1) as (G1 & E1 & Ohit). clear H1.
+        pose proof E1 as E0. adv E1.
+        mbind H p' s2 H2.
+        assert (X : good s2 /\ ext s1 s2 /\ own s2 p').
+        { destruct hit.
+          - apply ret_ok in H2. destruct H2 as [-> ->]. split; auto. split; [apply ext_refl|]. auto.
+          - mbind H2 cp s3 H3. destruct (clone_ok _ _ _ _ G1 H3) as (G3 & E3 & O3 & V3). clear H3.
+            pose proof E3 as E13. adv E3.
+            mbind H2 u s4 H4. destruct (w_add_if_cache_ok _ _ _ _ G3 O3 H4) as (G4 & E4). clear H4.
+            chain E13 E4.
+            mbind H2 u2 s5 H5.
+            assert (Y : good s5 /\ ext s4 s5).
+            { destruct p as [q|].
+              - simpl in Op. eapply (update_edge_ok q cp); eauto.
+              - mbind H5 b s6 H6. destruct (update_root_ok _ _ _ _ G4 V3 H6) as (G6 & E6).
+                apply ret_ok in H5. destruct H5 as [_ ->]. auto. }
+            destruct Y as (G5 & E5). chain E13 E5.
+            apply ret_ok in H2. destruct H2 as [-> ->]. auto. }
+        destruct X as (G2 & E2 & Op'). chain E0 E2.
+        mbind H key s3 H3. apply key_of_ok in H3. subst s3.
+        destruct (match_key key (c :: rest0)) as [[n rest'] brk].
+        destruct brk.
+        -- apply ret_ok in H. destruct H as [-> ->]. fin.
+        -- destruct (IH _ (Some p') _ _ _ _ _ _ _ _ _ _ G2 Vnx Op' Op Opp H) as (G9 & E9 & R).
+           split; auto. split; [eapply ext_trans; eauto|]. auto.
+      * apply ret_ok in H. destruct H as [-> ->]. simpl. split; auto. split; [apply ext_refl|]. auto.
+Qed.
+
+Lemma cow_search_ok rootNode path s r s' :
+  good s -> V s rootNode -> cow_search evict rootNode path s = Ok (r, s') ->
+  good s' /\ ext s s' /\ V s' (r_matched r) /\ optO mark s' (r_p r) /\ optO mark s' (r_pp r) /\ optO mark s' (r_ppp r).
+Proof. intros G Vr H. unfold cow_search in H. eapply cow_loop_ok; eauto; simpl; auto. Qed.
+
+(* ---------- insert / update ---------- *)
+Ltac meta1 H G E0 :=
+  let u := fresh "mu" in let s1 := fresh "ms" in let H1 := fresh "mH" in
+  let G1 := fresh "mG" in let E1 := fresh "mE" in
+  mbind H u s1 H1;
+  first [ destruct (bump_size_ok _ _ _ _ G H1) as (G1 & E1)
+        | destruct (upd_maxp_ok _ _ _ _ G H1) as (G1 & E1)
+        | destruct (upd_depth_ok _ _ _ _ G H1) as (G1 & E1)
+        | destruct (put_size_ok _ _ _ _ G H1) as (G1 & E1) ];
+  clear H1; chain E0 E1; clear G; rename G1 into G.
+
+Lemma patch_ok {A} po n (x : A) s y s' :
+  good s -> optO mark s po -> V s n ->
+  (p <- opt_get po ;; update_edge p n ;;; ret x) s = Ok (y, s') -> good s' /\ ext s s'.
+Proof.
+  intros G Op Vn H. mbind H p s1 H1. apply opt_get_ok in H1. destruct H1 as [-> ->]. simpl in Op.
+  mbind H u s1 H1. destruct (update_edge_ok _ _ _ _ _ G Op Vn H1) as (G1 & E1).
+  apply ret_ok in H. destruct H as [_ ->]. auto.
+Qed.
+
+Lemma h_new_leaf_ok ri cm suffix s c add s' :
+  good s -> h_new_leaf ri cm suffix s = Ok ((c, add), s') -> good s' /\ ext s s' /\ V s' c.
+Proof.
+  intros G H. unfold h_new_leaf in H.
+  destruct (Nat.ltb 0 (ri_hostsplit ri) && Nat.ltb cm (ri_hostsplit ri))%bool.
+  - mbind H e s1 H1. destruct (alloc_arr_ok [] _ _ _ G (Forall_nil _) H1) as (G1 & E0 & V1 & L1 & _). clear H1.
+    mbind H pc s2 H2. destruct (new_node_ok _ _ _ _ _ _ G1 L1 H2) as (G2 & E2 & V2 & _). clear H2. chain E0 E2.
+    mbind H a s3 H3.
+    assert (F : Forall (V s2) [pc]) by auto.
+    destruct (alloc_arr_ok _ _ _ _ G2 F H3) as (G3 & E3 & V3 & L3 & _). clear H3. chain E0 E3.
+    mbind H c0 s4 H4. destruct (new_node_ok _ _ _ _ _ _ G3 L3 H4) as (G4 & E4 & V4 & _). clear H4. chain E0 E4.
+    apply ret_ok in H. destruct H as [H ->]. inversion H; subst. fin.
+  - mbind H e s1 H1. destruct (alloc_arr_ok [] _ _ _ G (Forall_nil _) H1) as (G1 & E0 & V1 & L1 & _). clear H1.
+    mbind H c0 s2 H2. destruct (new_node_ok _ _ _ _ _ _ G1 L1 H2) as (G2 & E2 & V2 & _). clear H2. chain E0 E2.
+    apply ret_ok in H. destruct H as [H ->]. inversion H; subst. fin.
+Qed.
+
+Lemma h_insert_ok method ri s out s' :
+  good s -> h_insert evict method ri s = Ok (out, s') -> good s' /\ ext s s'.
+Proof.
+  intros G H. unfold h_insert in H.
+  mbind H idx s1 H1. apply h_method_index_ok in H1. subst s1.
+  mbind H rootNode s1 H1.
+  assert (X : good s1 /\ ext s s1 /\ V s1 rootNode).
+  { destruct idx as [i|].
+    - mbind H1 rs s2 H2. destruct (get_roots_ok _ _ _ G H2) as [-> F]. clear H2.
+      apply opt_get_ok in H1. destruct H1 as [Hn ->]. fin. eapply nth_error_Forall; eauto.
+    - mbind H1 e s2 H2. destruct (alloc_arr_ok [] _ _ _ G (Forall_nil _) H2) as (G2 & E0 & V2 & L2 & _). clear H2.
+      mbind H1 rn s3 H3. pose proof (fun pf => alloc_node_ok _ _ _ _ G2 pf H3) as X. simpl in X.
+      destruct (X V2) as (G3 & E3 & V3 & L3 & _). clear X H3. chain E0 E3.
+      mbind H1 u s4 H4. destruct (add_root_ok _ _ _ _ G3 V3 H4) as (G4 & E4). clear H4. chain E0 E4.
+      apply ret_ok in H1. destruct H1 as [-> ->]. fin. }
+  destruct X as (G1 & E0 & Vr). clear G H1.
+  mbind H r s2 H2. destruct (cow_search_ok _ _ _ _ _ G1 Vr H2) as (G2 & E2 & Vm & Op & Opp & Oppp). clear H2 G1. chain E0 E2.
+  mbind H mo s3 H3. apply get_node_ok in H3. destruct H3 as [-> Hmo].
+  pose proof (proj2 (wf_node _ (g_wf _ _ G2) _ _ Hmo)) as Varr.
+  destruct (classify r (List.length (n_key mo))) as [[]|]; [| | | |discriminate].
+  - (* exactMatch *)
+    destruct (n_route mo).
+    + apply ret_ok in H. destruct H as [_ ->]. fin.
+    + mbind H n s3 H3. destruct (new_node_from_ref_ok _ _ _ _ _ _ G2 Varr H3) as (G3 & E3 & V3 & _). clear H3 G2. chain E0 E3.
+      repeat meta1 H G3 E0.
+      destruct (patch_ok _ _ _ _ _ _ G3 Op V3 H) as (G4 & E4). split; auto. eapply ext_trans; eauto.
+  - (* incompleteMatchToEndOfEdge *)
+    mbind H cadd s3 H3. destruct cadd as [child add].
+    destruct (h_new_leaf_ok _ _ _ _ _ _ _ G2 H3) as (G3 & E3 & V3). clear H3.
+    assert (Hmo3 : exists o', find_node s3 (r_matched r) = Some o' /\ n_arr o' = n_arr mo) by (apply (e_pers _ _ _ E3 _ _ Hmo)).
+    clear G2. chain E0 E3.
+    mbind H ch s4 H4. apply get_arr_ok in H4. destruct H4 as [-> Hch].
+    pose proof (proj2 (wf_arr _ (g_wf _ _ G3) _ _ Hch)) as Fch.
+    mbind H a s4 H4.
+    assert (F : Forall (V s3) (ch ++ [child])) by (apply Forall_app; auto).
+    destruct (alloc_arr_ok _ _ _ _ G3 F H4) as (G4 & E4 & V4 & L4 & _). clear H4 G3. chain E0 E4.
+    mbind H n s5 H5. destruct (new_node_ok _ _ _ _ _ _ G4 L4 H5) as (G5 & E5 & V5 & O5). clear H5 G4. chain E0 E5.
+    repeat meta1 H G5 E0.
+    destruct (Pos.eqb (r_matched r) rootNode).
+    + mbind H u s6 H6. destruct (set_key_ok _ _ _ _ _ G5 (proj1 O5) H6) as (G6 & E6). clear H6 G5. chain E0 E6.
+      mbind H u2 s7 H7. destruct (w_add_if_cache_ok _ _ _ _ G6 O5 H7) as (G7 & E7). clear H7 G6. chain E0 E7.
+      mbind H b s8 H8. destruct (update_root_ok _ _ _ _ G7 V5 H8) as (G8 & E8). clear H8 G7. chain E0 E8.
+      apply ret_ok in H. destruct H as [_ ->]. fin.
+    + destruct (patch_ok _ _ _ _ _ _ G5 Op V5 H) as (G6 & E6). split; auto. eapply ext_trans; eauto.
+  - (* incompleteMatchToMiddleOfEdge *)
+    destruct (prefix_conflict _ _).
+    + apply ret_ok in H. destruct H as [_ ->]. fin.
+    + mbind H cadd s3 H3. destruct cadd as [n1 add].
+      destruct (h_new_leaf_ok _ _ _ _ _ _ _ G2 H3) as (G3 & E3 & V3). clear H3 G2. chain E0 E3.
+      mbind H n2 s4 H4. destruct (new_node_from_ref_ok _ _ _ _ _ _ G3 Varr H4) as (G4 & E4 & V4 & _). clear H4 G3. chain E0 E4.
+      mbind H a s5 H5.
+      assert (F : Forall (V s4) [n1; n2]) by auto.
+      destruct (alloc_arr_ok _ _ _ _ G4 F H5) as (G5 & E5 & V5 & L5 & _). clear H5 G4. chain E0 E5.
+      mbind H n3 s6 H6. destruct (new_node_ok _ _ _ _ _ _ G5 L5 H6) as (G6 & E6 & V6 & _). clear H6 G5. chain E0 E6.
+      repeat meta1 H G6 E0.
+      destruct (patch_ok _ _ _ _ _ _ G6 Op V6 H) as (G7 & E7). split; auto. eapply ext_trans; eauto.
+  - (* keyEndMidEdge *)
+    mbind H child s3 H3. destruct (new_node_from_ref_ok _ _ _ _ _ _ G2 Varr H3) as (G3 & E3 & V3 & _). clear H3 G2. chain E0 E3.
+    mbind H a s4 H4.
+    assert (F : Forall (V s3) [child]) by auto.
+    destruct (alloc_arr_ok _ _ _ _ G3 F H4) as (G4 & E4 & V4 & L4 & _). clear H4 G3. chain E0 E4.
+    mbind H parent s5 H5. destruct (new_node_ok _ _ _ _ _ _ G4 L4 H5) as (G5 & E5 & V5 & _). clear H5 G4. chain E0 E5.
+    repeat meta1 H G5 E0.
+    destruct (patch_ok _ _ _ _ _ _ G5 Op V5 H) as (G6 & E6). split; auto. eapply ext_trans; eauto.
+Qed.
+
+Lemma h_update_ok method ri s out s' :
+  good s -> h_update evict method ri s = Ok (out, s') -> good s' /\ ext s s'.
+Proof.
+  intros G H. unfold h_update in H.
+  mbind H idx s1 H1. apply h_method_index_ok in H1. subst s1.
+  destruct idx as [i|]; [|apply ret_ok in H; destruct H as [_ ->]; fin].
+  mbind H rs s2 H2. destruct (get_roots_ok _ _ _ G H2) as [-> F]. clear H2.
+  mbind H rn s2 H2. apply opt_get_ok in H2. destruct H2 as [Hn ->].
+  assert (Vr : V s rn) by (eapply nth_error_Forall; eauto).
+  mbind H r s2 H2. destruct (cow_search_ok _ _ _ _ _ G Vr H2) as (G2 & E0 & Vm & Op & Opp & Oppp). clear H2 G.
+  mbind H mo s3 H3. apply get_node_ok in H3. destruct H3 as [-> Hmo].
+  pose proof (proj2 (wf_node _ (g_wf _ _ G2) _ _ Hmo)) as Varr.
+  destruct (is_exact r _); [destruct (n_route mo)|]; try (apply ret_ok in H; destruct H as [_ ->]; fin).
+  mbind H n s3 H3. destruct (new_node_from_ref_ok _ _ _ _ _ _ G2 Varr H3) as (G3 & E3 & V3 & _). clear H3 G2. chain E0 E3.
+  destruct (patch_ok _ _ _ _ _ _ G3 Op V3 H) as (G4 & E4). split; auto. eapply ext_trans; eauto.
+Qed.
+
+(* ---------- remove ---------- *)
+Lemma recreate_parent_edge_ok parent matched s a s' :
+  good s -> recreate_parent_edge parent matched s = Ok (a, s') -> good s' /\ ext s s' /\ V s' a /\ mark <= a.
+Proof.
+  intros G H. unfold recreate_parent_edge in H.
+  mbind H o s1 H1. apply get_node_ok in H1. destruct H1 as [-> Ho].
+  mbind H ch s1 H1. apply get_arr_ok in H1. destruct H1 as [-> Hch].
+  pose proof (proj2 (wf_arr _ (g_wf _ _ G) _ _ Hch)) as Fch.
+  destruct (Nat.eqb _ _); [|discriminate].
+  assert (F : Forall (V s) (rm matched ch)).
+  { unfold rm. rewrite Forall_forall in *. intros x Hx. apply filter_In in Hx. apply Fch. tauto. }
+  destruct (alloc_arr_ok _ _ _ _ G F H) as (G1 & E1 & V1 & L1 & _). fin.
+Qed.
+
+Lemma rebuild_parent_ok o edges may_merge slash s a s' :
+  good s -> mark <= edges -> rebuild_parent o edges may_merge slash s = Ok (a, s') ->
+  good s' /\ ext s s' /\ V s' a /\ mark <= a /\ (may_merge = false -> own s' a).
+Proof.
+  intros G Le H. unfold rebuild_parent in H.
+  mbind H el s1 H1. apply get_arr_ok in H1. destruct H1 as [-> Hel].
+  assert (NN : forall s a s', good s -> new_node (n_key o) (n_route o) edges s = Ok (a, s') ->
+               good s' /\ ext s s' /\ V s' a /\ mark <= a /\ (may_merge = false -> own s' a)).
+  { intros s0 a0 s0' G0 H0. destruct (new_node_ok _ _ _ _ _ _ G0 Le H0) as (G1 & E1 & V1 & O1). fin. apply O1. }
+  destruct el as [|c [|c2 el]]; eauto.
+  mbind H co s1 H1. apply get_node_ok in H1. destruct H1 as [-> Hco].
+  pose proof (proj2 (wf_node _ (g_wf _ _ G) _ _ Hco)) as Varr.
+  destruct may_merge; simpl in H; eauto.
+  destruct (negb (is_some (n_route o)) && negb (slash && starts_with "/" (n_key co)))%bool; eauto.
+  destruct (new_node_from_ref_ok _ _ _ _ _ _ G Varr H) as (G1 & E1 & V1 & L1 & _). fin. discriminate.
+Qed.
+
+Lemma finish_root_ok method parent s b s' :
+  good s -> own s parent -> finish_root evict method parent s = Ok (b, s') -> good s' /\ ext s s'.
+Proof.
+  intros G Op H. unfold finish_root in H.
+  mbind H po s1 H1. apply get_node_ok in H1. destruct H1 as [-> Hpo].
+  mbind H pch s1 H1. apply get_arr_ok in H1. destruct H1 as [-> Hpch].
+  destruct (is_nil pch && is_removable method)%bool.
+  - eapply remove_root_ok; eauto.
+  - pose proof (own_V _ _ _ (g_wf _ _ G) Op) as Vp.
+    mbind H w1 s1 H1. destruct (set_key_ok _ _ _ _ _ G (proj1 Op) H1) as (G1 & E0). clear H1 G. adv E0.
+    mbind H w2 s2 H2. destruct (w_add_if_cache_ok _ _ _ _ G1 Op H2) as (G2 & E2). clear H2 G1. chain E0 E2.
+    mbind H w3 s3 H3. destruct (update_root_ok _ _ _ _ G2 Vp H3) as (G3 & E3). clear H3 G2. chain E0 E3.
+    apply ret_ok in H. destruct H as [_ ->]. fin.
+Qed.
+
+Lemma h_remove_ok method path s out s' :
+  good s -> h_remove evict method path s = Ok (out, s') -> good s' /\ ext s s'.
+Proof.
+  intros G H. unfold h_remove in H.
+  mbind H idx s1 H1. apply h_method_index_ok in H1. subst s1.
+  destruct idx as [i|]; [|apply ret_ok in H; destruct H as [_ ->]; fin].
+  mbind H rs s2 H2. destruct (get_roots_ok _ _ _ G H2) as [-> F]. clear H2.
+  mbind H rn s2 H2. apply opt_get_ok in H2. destruct H2 as [Hn ->].
+  assert (Vr : V s rn) by (eapply nth_error_Forall; eauto).
+  mbind H r s2 H2. destruct (cow_search_ok _ _ _ _ _ G Vr H2) as (G2 & E0 & Vm & Op & Opp & Oppp). clear H2 G.
+  mbind H mo s3 H3. apply get_node_ok in H3. destruct H3 as [-> Hmo].
+  pose proof (proj2 (wf_node _ (g_wf _ _ G2) _ _ Hmo)) as Varr.
+  destruct (is_exact r _); [destruct (n_route mo) as [rt|]|]; try (apply ret_ok in H; destruct H as [_ ->]; fin).
+  meta1 H G2 E0.
+  mbind H mch s3 H3. apply get_arr_ok in H3. destruct H3 as [-> Hmch].
+  destruct mch as [|c [|c2 mch]].
+  - (* no children: rebuild the parent *)
+    mbind H p s3 H3. apply opt_get_ok in H3. destruct H3 as [Hp ->]. rewrite Hp in Op. simpl in Op.
+    mbind H po s3 H3. apply get_node_ok in H3. destruct H3 as [-> Hpo].
+    mbind H pe s3 H3. destruct (recreate_parent_edge_ok _ _ _ _ _ G2 H3) as (G3 & E3 & V3 & L3). clear H3 G2. chain E0 E3.
+    mbind H rs' s4 H4. destruct (get_roots_ok _ _ _ G3 H4) as [-> F']. clear H4.
+    mbind H cur_root s4 H4. apply opt_get_ok in H4. destruct H4 as [Hcr ->].
+    mbind H pel s4 H4. apply get_arr_ok in H4. destruct H4 as [-> Hpel].
+    destruct (is_nil pel && negb (is_some (n_route po)) && negb (Pos.eqb p cur_root))%bool.
+    + mbind H pp s4 H4. apply opt_get_ok in H4. destruct H4 as [Hpp ->]. rewrite Hpp in Opp. simpl in Opp.
+      mbind H ppo s4 H4. apply get_node_ok in H4. destruct H4 as [-> Hppo].
+      mbind H pe2 s4 H4. destruct (recreate_parent_edge_ok _ _ _ _ _ G3 H4) as (G4 & E4 & V4 & L4). clear H4 G3. chain E0 E4.
+      mbind H parent s5 H5. destruct (rebuild_parent_ok _ _ _ _ _ _ _ G4 L4 H5) as (G5 & E5 & V5 & L5 & O5). clear H5 G4. chain E0 E5.
+      destruct (Pos.eqb pp cur_root); simpl in O5.
+      * mbind H b s6 H6. destruct (finish_root_ok _ _ _ _ _ G5 (O5 eq_refl) H6) as (G6 & E6). clear H6 G5. chain E0 E6.
+        apply ret_ok in H. destruct H as [_ ->]. fin.
+      * destruct (patch_ok _ _ _ _ _ _ G5 Oppp V5 H) as (G6 & E6). split; auto. eapply ext_trans; eauto.
+    + mbind H parent s5 H5. destruct (rebuild_parent_ok _ _ _ _ _ _ _ G3 L3 H5) as (G5 & E5 & V5 & L5 & O5). clear H5 G3. chain E0 E5.
+      destruct (Pos.eqb p cur_root); simpl in O5.
+      * mbind H b s6 H6. destruct (finish_root_ok _ _ _ _ _ G5 (O5 eq_refl) H6) as (G6 & E6). clear H6 G5. chain E0 E6.
+        apply ret_ok in H. destruct H as [_ ->]. fin.
+      * destruct (patch_ok _ _ _ _ _ _ G5 Opp V5 H) as (G6 & E6). split; auto. eapply ext_trans; eauto.
+  - (* one child: merge *)
+    mbind H co s3 H3. apply get_node_ok in H3. destruct H3 as [-> Hco].
+    pose proof (proj2 (wf_node _ (g_wf _ _ G2) _ _ Hco)) as Varr2.
+    mbind H n s3 H3. destruct (new_node_from_ref_ok _ _ _ _ _ _ G2 Varr2 H3) as (G3 & E3 & V3 & _). clear H3 G2. chain E0 E3.
+    destruct (patch_ok _ _ _ _ _ _ G3 Op V3 H) as (G4 & E4). split; auto. eapply ext_trans; eauto.
+  - (* several children: keep the node without its route *)
+    mbind H n s3 H3. destruct (new_node_from_ref_ok _ _ _ _ _ _ G2 Varr H3) as (G3 & E3 & V3 & _). clear H3 G2. chain E0 E3.
+    destruct (patch_ok _ _ _ _ _ _ G3 Op V3 H) as (G4 & E4). split; auto. eapply ext_trans; eauto.
+Qed.
+
+(* ---------- truncate ---------- *)
+Lemma h_routes_ok fuel : forall a s r s', h_routes fuel a s = Ok (r, s') -> s' = s.
+Proof.
+  induction fuel as [|f IH]; intros a s r s' H; simpl in H; [discriminate|].
+  mbind H o s1 H1. apply get_node_ok in H1. destruct H1 as [-> _].
+  mbind H ch s1 H1. apply get_arr_ok in H1. destruct H1 as [-> _].
+  mbind H rs s1 H1.
+  assert (s1 = s).
+  { clear H. revert rs s1 H1. induction ch as [|x t IHt]; intros rs s1 H1.
+    - apply ret_ok in H1. tauto.
+    - mbind H1 r0 s2 H2. apply IH in H2. subst s2. mbind H1 more s3 H3. apply IHt in H3. subst s3.
+      apply ret_ok in H1. tauto. }
+  subst s1. apply ret_ok in H. tauto.
+Qed.
+
+Lemma new_empty_root_ok k s a s' :
+  good s -> new_empty_root k s = Ok (a, s') -> good s' /\ ext s s' /\ V s' a.
+Proof.
+  intros G H. unfold new_empty_root in H.
+  mbind H e s1 H1. destruct (alloc_arr_ok [] _ _ _ G (Forall_nil _) H1) as (G1 & E0 & V1 & L1 & _). clear H1.
+  pose proof (fun pf => alloc_node_ok _ _ _ _ G1 pf H) as X. simpl in X.
+  destruct (X V1) as (G2 & E2 & V2 & _). split; auto. split; auto. eapply ext_trans; eauto.
+Qed.
+
+Lemma trunc_loop_ok fuel nr methods : forall s u s',
+  good s -> mark <= nr -> trunc_loop fuel nr methods s = Ok (u, s') -> good s' /\ ext s s'.
+Proof.
+  induction methods as [|m more IH]; intros s u s' G Ln H; simpl in H.
+  - apply ret_ok in H. destruct H as [_ ->]. fin.
+  - mbind H idx s1 H1. apply method_index_at_ok in H1. subst s1.
+    destruct idx as [i|]; [|eauto].
+    mbind H l s1 H1. apply get_arr_ok in H1. destruct H1 as [-> Hl].
+    pose proof (proj2 (wf_arr _ (g_wf _ _ G) _ _ Hl)) as Fl.
+    mbind H root s1 H1. apply opt_get_ok in H1. destruct H1 as [Hroot ->].
+    mbind H rts s1 H1. apply h_routes_ok in H1. subst s1.
+    pose proof (ext_refl mark s) as E0.
+    meta1 H G E0.
+    mbind H w1 s2 H2.
+    assert (X : good s2 /\ HeapProofs.ext mark ms s2).
+    { destruct (negb (is_removable m)).
+      - mbind H2 nn s3 H3. destruct (new_empty_root_ok _ _ _ _ G H3) as (G3 & E3 & V3).
+        destruct (write_slot_ok _ _ _ _ _ _ G3 Ln V3 H2) as (G4 & E4). split; auto. eapply ext_trans; eauto.
+      - eapply (write_arr_ok nr (del_nth l i)); eauto. apply Forall_del_nth; auto. }
+    destruct X as (G2 & E2). chain E0 E2.
+    destruct (IH _ _ _ G2 Ln H) as (G3 & E3). split; auto. eapply ext_trans; eauto.
+Qed.
+
+Lemma new_empty_roots_ok ks : forall s l s',
+  good s -> new_empty_roots ks s = Ok (l, s') -> good s' /\ ext s s' /\ Forall (V s') l.
+Proof.
+  induction ks as [|k r IH]; intros s l s' G H; simpl in H.
+  - apply ret_ok in H. destruct H as [-> ->]. fin.
+  - mbind H a s1 H1. destruct (new_empty_root_ok _ _ _ _ G H1) as (G1 & E0 & V1). clear H1.
+    mbind H more s2 H2. destruct (IH _ _ _ G1 H2) as (G2 & E2 & F2). clear H2. chain E0 E2.
+    apply ret_ok in H. destruct H as [-> ->]. fin.
+Qed.
+
+Lemma h_truncate_ok fuel methods s u s' :
+  good s -> h_truncate fuel methods s = Ok (u, s') -> good s' /\ ext s s'.
+Proof.
+  intros G H. unfold h_truncate in H.
+  assert (Hne : forall s u s', good s ->
+     (rs <- get_roots ;; nr <- alloc_arr rs ;; trunc_loop fuel nr methods ;;; set_root nr) s = Ok (u, s') ->
+     good s' /\ HeapProofs.ext mark s s').
+  { clear. intros s u s' G H.
+    mbind H rs s1 H1. destruct (get_roots_ok _ _ _ G H1) as [-> F]. clear H1.
+    mbind H nr s1 H1. destruct (alloc_arr_ok _ _ _ _ G F H1) as (G1 & E0 & V1 & L1 & _). clear H1.
+    mbind H w1 s2 H2. destruct (trunc_loop_ok _ _ _ _ _ _ G1 L1 H2) as (G2 & E2). clear H2. chain E0 E2.
+    destruct (set_root_ok _ _ _ _ G2 V1 H) as (G3 & E3). split; auto. eapply ext_trans; eauto. }
+  destruct methods as [|m ms]; [|eauto].
+  mbind H l s1 H1. destruct (new_empty_roots_ok _ _ _ _ G H1) as (G1 & E0 & F1). clear H1.
+  mbind H nr s2 H2. destruct (alloc_arr_ok _ _ _ _ G1 F1 H2) as (G2 & E2 & V2 & L2 & _). clear H2. chain E0 E2.
+  mbind H w1 s3 H3. destruct (set_root_ok _ _ _ _ G2 V2 H3) as (G3 & E3). clear H3. chain E0 E3.
+  destruct (put_size_ok _ _ _ _ G3 H) as (G4 & E4). split; auto. eapply ext_trans; eauto.
+Qed.
+
+(* ---------- one operation of a write transaction ---------- *)
+Lemma run_op_ok fuel o s res s' :
+  good s -> run_op evict fuel o s = Ok (res, s') -> good s' /\ ext s s'.
+Proof.
+  intros G H. destruct o as [m pat valid psl hs rid|m pat valid psl hs rid|m pat valid|ms]; simpl in H.
+  - destruct (negb (valid_method_handle m) || negb valid)%bool.
+    + apply ret_ok in H. destruct H as [_ ->]. fin.
+    + mbind H out s1 H1. destruct (h_insert_ok _ _ _ _ _ G H1) as (G1 & E1).
+      destruct out as [|p|a].
+      * apply ret_ok in H. destruct H as [_ ->]. fin.
+      * apply ret_ok in H. destruct H as [_ ->]. fin.
+      * mbind H rts s2 H2. apply h_routes_ok in H2. subst s2. apply ret_ok in H. destruct H as [_ ->]. fin.
+  - destruct (is_nil m || negb valid)%bool.
+    + apply ret_ok in H. destruct H as [_ ->]. fin.
+    + mbind H b s1 H1. destruct (h_update_ok _ _ _ _ _ G H1) as (G1 & E1).
+      apply ret_ok in H. destruct H as [_ ->]. fin.
+  - destruct (is_nil m || negb valid)%bool.
+    + apply ret_ok in H. destruct H as [_ ->]. fin.
+    + mbind H r s1 H1. destruct (h_remove_ok _ _ _ _ _ G H1) as (G1 & E1).
+      destruct r; apply ret_ok in H; destruct H as [_ ->]; fin.
+  - mbind H u s1 H1. destruct (h_truncate_ok _ _ _ _ _ G H1) as (G1 & E1).
+    apply ret_ok in H. destruct H as [_ ->]. fin.
+Qed.
+
+End Inv.
+
+(* ================= Part 2: histories ================= *)
+
+(* objects below m only point below m *)
+Definition closed (m : addr) (s : st) : Prop :=
+  (forall a o, a < m -> find_node s a = Some o -> n_arr o < m) /\
+  (forall a l, a < m -> find_arr s a = Some l -> Forall (fun x => x < m) l).
+
+Lemma closed_of_wf s : wf s -> closed (s_next s) s.
+Proof.
+  intros W. split.
+  - intros a o _ H. apply (wf_node _ W _ _ H).
+  - intros a l _ H. apply (wf_arr _ W _ _ H).
+Qed.
+
+Lemma closed_ext m s s' : closed m s -> ext m s s' -> closed m s'.
+Proof.
+  intros [C1 C2] E. split.
+  - intros a o L H. rewrite (e_node _ _ _ E) in H by auto. eauto.
+  - intros a l L H. rewrite (e_arr _ _ _ E) in H by auto. eauto.
+Qed.
+
+Lemma abs_node_frozen m s s' : closed m s -> ext m s s' ->
+  forall f a, a < m -> abs_node f s' a = abs_node f s a.
+Proof.
+  intros [C1 C2] E. induction f as [|f IH]; intros a L; simpl; auto.
+  rewrite (e_node _ _ _ E) by auto.
+  destruct (find_node s a) as [o|] eqn:Ho; auto.
+  pose proof (C1 _ _ L Ho) as La.
+  rewrite (e_arr _ _ _ E) by auto.
+  destruct (find_arr s (n_arr o)) as [ch|] eqn:Hch; auto.
+  pose proof (C2 _ _ La Hch) as Fch.
+  match goal with |- match ?x with _ => _ end = match ?y with _ => _ end => assert (X : x = y) end.
+  { clear Hch. induction Fch as [|x t Hx Ft IHt]; auto. rewrite IH by auto. rewrite IHt. auto. }
+  rewrite X. auto.
+Qed.
+
+Lemma abs_frozen m s s' f r : closed m s -> ext m s s' -> r < m -> abs f s' r = abs f s r.
+Proof.
+  intros C E L. unfold abs. rewrite (e_arr _ _ _ E) by auto.
+  destruct (find_arr s r) as [l|] eqn:Hl; auto.
+  pose proof (proj2 C _ _ L Hl) as Fl.
+  induction Fl as [|x t Hx Ft IHt]; simpl; auto.
+  rewrite (abs_node_frozen m s s' C E) by auto. rewrite IHt. auto.
+Qed.
+
+Record winv (m : addr) (w : world) : Prop := {
+  wi_good : good m (w_st w);
+  wi_closed : closed m (w_st w);
+  wi_pub : p_root (w_pub w) < m;
+  wi_handed : Forall (fun r => r < m) (w_handed w) }.
+
+(* a new mark at a point where the writable set is empty *)
+Lemma good_remark m s : good m s -> s_wr s = [] -> good (s_next s) s.
+Proof. intros [W M Wr] Hw. constructor; auto. - lia. - rewrite Hw. auto. Qed.
+
+Lemma good_reset_wr m s : good m s -> good m (reset_wr s) /\ ext m s (reset_wr s).
+Proof. intros G. unfold reset_wr. apply good_set_wr; auto. Qed.
+
+Lemma Forall_lt_weaken (m m' : addr) l : m <= m' -> Forall (fun r => r < m) l -> Forall (fun r => r < m') l.
+Proof. intros L F. eapply Forall_impl; [|exact F]. simpl. intros; lia. Qed.
+
+Lemma good_begin m s p c : good m s -> p_root p < m -> good m (begin_st s p c) /\ ext m s (begin_st s p c).
+Proof.
+  intros [W M Wr] L. split.
+  - constructor; simpl; auto. destruct W as [wn wa wr]. constructor; auto. unfold V in *. simpl. lia.
+  - apply ext_same_heap; auto.
+Qed.
+
+(* re-mark at the allocation pointer: a snapshot point *)
+Lemma winv_remark m s pub handed opn :
+  good m s -> s_wr s = [] -> p_root pub < s_next s -> Forall (fun r => r < s_next s) handed ->
+  winv (s_next s) {| w_st := s; w_pub := pub; w_open := opn; w_handed := handed |}.
+Proof.
+  intros G Hw Lp Fh. constructor; simpl; auto.
+  - eapply good_remark; eauto.
+  - apply closed_of_wf. apply (g_wf _ _ G).
+Qed.
+
+Section Hist.
+Variable evict : N -> list addr -> list addr.
+Hypothesis evict_sub : forall c w a, In a (evict c w) -> In a w.
+Variable fuel : nat.
+
+Lemma step_inv m w e : winv m w ->
+  exists m', m <= m' /\ winv m' (fst (fst (step evict fuel true w e))) /\
+             ext m (w_st w) (w_st (fst (fst (step evict fuel true w e)))) /\
+             (forall r, In r (w_handed w) -> In r (w_handed (fst (fst (step evict fuel true w e))))).
+Proof.
+  intros [G C Lp Fh]. destruct w as [s pub opn handed]. simpl in *.
+  pose proof (g_mark _ _ G) as Mn.
+  assert (Same : exists m', m <= m' /\ winv m' {| w_st := s; w_pub := pub; w_open := opn; w_handed := handed |} /\
+                 ext m s s /\ (forall r, In r handed -> In r handed)).
+  { exists m. split; [lia|]. split; [constructor; auto|]. split; [apply ext_refl|auto]. }
+  destruct e as [| | |o|o| | |]; simpl.
+  - (* EBegin *)
+    destruct opn; simpl; auto.
+    destruct (good_begin m s pub true G Lp) as (G1 & E1).
+    exists m. split; [lia|]. split; [|split; auto].
+    constructor; simpl; auto. eapply closed_ext; eauto.
+  - (* ECommit *)
+    destruct opn; simpl; auto.
+    destruct (good_reset_wr m s G) as (G1 & E1).
+    exists (s_next (reset_wr s)). split; [simpl; lia|]. split; [|split; auto].
+    apply winv_remark with (m := m); simpl; auto.
+    + apply (wf_root _ (g_wf _ _ G)).
+    + eapply Forall_lt_weaken; [|exact Fh]. lia.
+  - (* EAbort *)
+    exists m. split; [lia|]. split; [constructor; auto|]. split; [apply ext_refl|auto].
+  - (* EOp *)
+    destruct opn; simpl; auto.
+    destruct (run_op evict fuel o s) as [[[out rm] s']| |] eqn:R; simpl; auto.
+    destruct (run_op_ok evict evict_sub m fuel o s _ _ G R) as (G1 & E1).
+    exists m. split; [lia|]. split; [|split; auto].
+    constructor; simpl; auto. eapply closed_ext; eauto.
+  - (* EDirect *)
+    destruct opn; simpl; auto.
+    destruct (good_begin m s pub (direct_cache o) G Lp) as (G0 & E0).
+    destruct (run_op evict fuel o (begin_st s pub (direct_cache o))) as [[[out rm] s']| |] eqn:R; simpl; auto.
+    destruct (run_op_ok evict evict_sub m fuel o _ _ _ G0 R) as (G1 & E1).
+    assert (E : ext m s s') by (eapply ext_trans; eauto).
+    assert (Keep : exists m', m <= m' /\ winv m' {| w_st := s'; w_pub := pub; w_open := false; w_handed := handed |} /\
+                   ext m s s' /\ (forall r, In r handed -> In r handed)).
+    { exists m. split; [lia|]. split; [|split; auto]. constructor; simpl; auto. eapply closed_ext; eauto. }
+    destruct out; simpl; auto.
+    destruct (good_reset_wr m s' G1) as (G2 & E2).
+    exists (s_next (reset_wr s')). pose proof (g_mark _ _ G1). split; [simpl; lia|]. split; [|split; auto].
+    + apply winv_remark with (m := m); simpl; auto.
+      * apply (wf_root _ (g_wf _ _ G1)).
+      * eapply Forall_lt_weaken; [|exact Fh]. lia.
+    + eapply ext_trans; eauto.
+  - (* ESnapIter *)
+    destruct opn; simpl; auto.
+    destruct (good_reset_wr m s G) as (G1 & E1).
+    exists (s_next (reset_wr s)). split; [simpl; lia|]. split; [|split; auto].
+    + apply winv_remark with (m := m); simpl; auto.
+      * lia.
+      * apply Forall_app. split; [eapply Forall_lt_weaken; [|exact Fh]; lia|].
+        constructor; auto. apply (wf_root _ (g_wf _ _ G)).
+    + intros r Hr. apply in_or_app. auto.
+  - (* ESnapClone *)
+    destruct opn; simpl; auto.
+    destruct (good_reset_wr m s G) as (G1 & E1).
+    exists (s_next (reset_wr s)). split; [simpl; lia|]. split; [|split; auto].
+    + apply winv_remark with (m := m); simpl; auto.
+      * lia.
+      * apply Forall_app. split; [eapply Forall_lt_weaken; [|exact Fh]; lia|].
+        constructor; auto. apply (wf_root _ (g_wf _ _ G)).
+    + intros r Hr. apply in_or_app. auto.
+  - (* EObsPub *)
+    exists m. split; [lia|]. split; [|split; [apply ext_refl|]].
+    + constructor; simpl; auto. apply Forall_app. auto.
+    + intros r Hr. apply in_or_app. auto.
+Qed.
+
+Lemma run_inv es : forall m w, winv m w ->
+  exists m', m <= m' /\ winv m' (run evict fuel true w es) /\
+             ext m (w_st w) (w_st (run evict fuel true w es)) /\
+             (forall r, In r (w_handed w) -> In r (w_handed (run evict fuel true w es))).
+Proof.
+  induction es as [|e r IH]; intros m w I; simpl.
+  - exists m. split; [lia|]. split; auto. split; [apply ext_refl|auto].
+  - destruct (step_inv m w e I) as (m1 & L1 & I1 & E1 & H1).
+    destruct (IH _ _ I1) as (m2 & L2 & I2 & E2 & H2).
+    exists m2. split; [lia|]. split; auto. split; auto.
+    eapply ext_trans; [exact E1|]. eapply ext_weaken; eauto.
+Qed.
+
+End Hist.
